@@ -187,8 +187,17 @@ func (vc *VC) siteKeys(ins ssa.Instruction) []string {
 // planUpdates assigns update clauses to instructions (ordinal = source order).
 func (vc *VC) planUpdates() {
 	vc.updatesAt = map[ssa.Instruction][]*UpdateClause{}
-	if vc.fc == nil || len(vc.fc.Updates) == 0 {
+	vc.assertsAt = map[ssa.Instruction][]*AssertClause{}
+	if vc.fc == nil || len(vc.fc.Updates)+len(vc.fc.Asserts) == 0 {
 		return
+	}
+	wantA := map[string][]*AssertClause{}
+	for _, a := range vc.fc.Asserts {
+		site := a.Site
+		if !strings.Contains(site, "#") {
+			site += "#1"
+		}
+		wantA[site] = append(wantA[site], a)
 	}
 	want := map[string]*UpdateClause{}
 	for _, u := range vc.fc.Updates {
@@ -209,6 +218,9 @@ func (vc *VC) planUpdates() {
 					vc.updatesAt[ins] = append(vc.updatesAt[ins], u)
 					used[full] = true
 				}
+				if as, ok := wantA[full]; ok {
+					vc.assertsAt[ins] = append(vc.assertsAt[ins], as...)
+				}
 			}
 		}
 	}
@@ -222,7 +234,29 @@ func (vc *VC) planUpdates() {
 	}
 }
 
+// runAsserts proves intermediate assertions at their program point and then
+// makes them available (labelled) to later proofs.
+func (vc *VC) runAsserts(ins ssa.Instruction, st *State) {
+	as := vc.assertsAt[ins]
+	if len(as) == 0 {
+		return
+	}
+	env := vc.localEnv(ins.Block(), vc.contractEnv(nil))
+	for _, a := range as {
+		goal := vc.evalBool(a.C.E, env, st, vc.entry)
+		name := a.C.Label
+		if name == "" {
+			name = "assert"
+		}
+		vc.obligeState = st
+		vc.oblige("post", name+"@"+strings.ReplaceAll(a.Site, " ", "_"), a.C.Props, goal, a.C)
+		vc.obligeState = nil
+		vc.assumeL(goal, a.C.Label)
+	}
+}
+
 func (vc *VC) runUpdates(ins ssa.Instruction, st *State) {
+	defer vc.runAsserts(ins, st)
 	us := vc.updatesAt[ins]
 	if len(us) == 0 {
 		return
